@@ -6,6 +6,7 @@ import (
 	"math"
 	"reflect"
 	"sort"
+	"strconv"
 	"strings"
 	"unicode"
 	"unicode/utf8"
@@ -385,6 +386,18 @@ var poolFolders = map[reflect.Type]func(reflect.Value) model.V{
 	reflect.TypeOf(FolderScalar{}): func(rv reflect.Value) model.V { return model.Int(rv.Field(0).Int() * 2) },
 	reflect.TypeOf(RegT{}): func(rv reflect.Value) model.V {
 		return model.Obj(model.Member{Key: []byte("rx"), Val: model.Int(rv.Field(0).Int())})
+	},
+	reflect.TypeOf(FLevel(0)): func(rv reflect.Value) model.V {
+		return model.Str([]byte("level-" + strconv.FormatInt(rv.Int(), 10)))
+	},
+	reflect.TypeOf(FFlag(false)): func(rv reflect.Value) model.V {
+		if rv.Bool() {
+			return model.Int(1)
+		}
+		return model.Int(0)
+	},
+	reflect.TypeOf(RDur(0)): func(rv reflect.Value) model.V {
+		return model.Str([]byte(strconv.FormatInt(rv.Int(), 10) + "ns"))
 	},
 	reflect.TypeOf(FTags(nil)): func(rv reflect.Value) model.V {
 		parts := make([]string, rv.Len())
